@@ -78,3 +78,36 @@ def model_from_xlsx(wb, path, sheet_order=None, ignore_sheets=(),
                 os.remove(path)
             except OSError:
                 pass
+
+
+PROVENANCES = ('compiled', 'deepcopy', 'extracted', 'json')
+
+
+def derive(model, provenance, scratch):
+    """'A model' is any Model the public API hands out: the compiled one, a
+    deep copy, the one restored from its JSON file (C12) or the one extracted
+    with every cell and name in focus (C13).  scratch: path of a file this
+    shard may overwrite."""
+    if provenance == 'compiled':
+        return model
+    if provenance == 'deepcopy':
+        import copy
+        return copy.deepcopy(model)
+    if provenance == 'extracted':
+        from xlcalculator import ModelCompiler
+        focus = list(model.cells) + list(model.defined_names)
+        return ModelCompiler.extract(model, focus=focus)
+    if provenance == 'json':
+        from xlcalculator import Model
+        os.makedirs(os.path.dirname(scratch), exist_ok=True)
+        model.persist_to_json_file(scratch)
+        try:
+            m2 = Model()
+            m2.construct_from_json_file(scratch, build_code=True)
+        finally:
+            try:
+                os.remove(scratch)
+            except OSError:
+                pass
+        return m2
+    raise ValueError(provenance)
